@@ -40,7 +40,7 @@ func runEtxQ(seed uint64, n int, outDir string, replay string) {
 					o.Pad("panic %v", p)
 				}
 			}()
-			if rc.Chance(15) || c == 2 {
+			if (rc.Chance(15) && c != 1) || c == 2 { // case 1 is always the long queue history
 				etxCommitment(o, rc, loc, c == 2)
 				return
 			}
